@@ -4,8 +4,13 @@ package main
 
 func init() {
 	props["C01"] = &propSpec{
-		Rules:      []string{"C01-a"},
+		Rules:      []string{"C01-a", "C01-b"},
 		Decides:    "structural necessary conditions of 'no row is dropped, truncated or altered': no storage/sorter/ingest error is dropped (C01-a); 16-bit lengths/offsets in the row codec are bounded before narrowing (C01-b); worker-shared accumulation of blocks and row count is synchronised (C16-a).",
 		NotDecided: "equality of the stored row set with the input row set, key order, de-duplication correctness, export fidelity (value-dependent).",
+	}
+	props["C06"] = &propSpec{
+		Rules:      []string{"C06-c"},
+		Decides:    "16-bit string lengths are bounded by ≤ 65535 before narrowing and over-limit values are rejected by an error (C06-c).",
+		NotDecided: "decode(encode(x)) = x for all x; the packfile varint header arithmetic.",
 	}
 }
